@@ -207,6 +207,13 @@ def gen_cases(tier, seed):
         unsafe = [u for u in unsafe if u[0] == "RBFEvaluator" or u[1] in ("X1ctrl-wider-than-kernel", "alpha-shorter-than-X1ctrl")]
     for c, k in unsafe:
         add("asan-unsafe", "asan-unsafe-%s-%s" % (c, k), variant="asan", weight=2.0, timeout=300, cls=c, probe=k)
+    # (v) the repository's own C-backed test modules (none of them is in the pinned baseline: they fail at collection
+    # without the libraries) under ASan+UBSan with the boundary monitor in strict mode: valid uses written by the
+    # authors, a different workload from the generated drivers.  Test outcomes are recorded, not judged.
+    mods = REPO_TESTS_QUICK if q else REPO_TESTS_QUICK + REPO_TESTS_THOROUGH
+    for mname, w in mods:
+        add("asan-repotests", "asan-repotests-%s" % os.path.basename(mname).replace(".py", ""), variant="asan", threads=4,
+            weight=w, timeout=3600, module=mname)
     # the sanitizer drivers are the long pole: schedule their worker group first
     cases.sort(key=lambda c: 0 if c.get("_variant") == "asan" else 1)
     return cases
@@ -265,6 +272,64 @@ def run_case(case, rec):
         boot.MODE["strict"] = False
     if strict:
         _check_strict(rec, boot.STRICT_ERRORS[n0:])
+
+
+REPO_TESTS_QUICK = [("ciderpress/dft/tests/test_plans.py", 20.0), ("ciderpress/dft/tests/test_interpolation.py", 20.0),
+                    ("ciderpress/dft/tests/test_convolutions.py", 10.0), ("ciderpress/dft/tests/test_sph_harm_coeff.py", 10.0),
+                    ("ciderpress/dft/tests/test_baselines.py", 5.0), ("ciderpress/dft/tests/test_ueg.py", 5.0),
+                    ("ciderpress/dft/tests/test_grids_indexer.py", 5.0)]
+REPO_TESTS_THOROUGH = [("ciderpress/pyscf/tests/test_sdmx.py", 60.0), ("ciderpress/pyscf/tests/test_sdmx_slow.py", 90.0),
+                       ("ciderpress/pyscf/tests/test_frac_lapl.py", 60.0), ("ciderpress/pyscf/tests/test_nldf.py", 40.0)]
+
+
+def _run_asan_repotests(case, rec, rng):
+    """One test module of the repository in a child process that inherits the sanitizer environment of this worker
+    (LD_PRELOAD, ASAN/UBSAN options with the run's log directory) and loads the libraries through the monitored loader
+    (pytest plugin vlib.pytest_boot, strict boundary mode)."""
+    import json
+    import subprocess
+    import sys
+    import tempfile
+
+    from vlib import boot
+    mod = case["module"]
+    rec.tag("repo_test_module", mod)
+    fd, summ = tempfile.mkstemp(prefix="pytest_summary_", suffix=".json", dir=os.path.join(boot.VERIF_ROOT, ".build", "logs"))
+    os.close(fd)
+    env = dict(os.environ, VERIF_PYTEST_SUMMARY=summ, VERIF_BOOT_STRICT="1")
+    cmd = [sys.executable, "-m", "pytest", "-q", "-p", "no:cacheprovider", "-p", "vlib.pytest_boot", "-rA", "--timeout=3000", mod]
+    try:
+        r = subprocess.run(cmd, cwd=boot.REPO, env=env, capture_output=True, text=True, timeout=case["_timeout"] - 60)
+    except subprocess.TimeoutExpired:
+        rec.set_inconclusive("repository test module did not finish under ASan within the watchdog")
+        return
+    out = r.stdout + r.stderr
+    passed = len(re.findall(r"^PASSED ", out, flags=re.M))
+    failed = sorted(set(re.findall(r"^(?:FAILED|ERROR) (\S+)", out, flags=re.M)))
+    rec.note("tests_passed", passed)
+    rec.note("tests_failed_or_errored(recorded, not judged)", failed[:40])
+    rec.require("no_sanitizer_abort", r.returncode not in (97, -11, -6, -7, -8, -4),
+                mechanism="crash:repotests[%s]" % os.path.basename(mod), detail=out[-2500:])
+    data = {}
+    try:
+        data = json.load(open(summ))
+    except (OSError, ValueError):
+        pass
+    finally:
+        try:
+            os.unlink(summ)
+        except OSError:
+            pass
+    calls = data.get("calls") or {}
+    ncalls = int(sum(v for k, v in calls.items() if not k.endswith("@fnptr")))
+    rec.note("c_calls", ncalls)
+    rec.note("c_entry_points", len(calls))
+    _check_strict(rec, data.get("strict") or [])
+    if passed >= 1 and ncalls >= 1:
+        rec.nontrivial("repotests:%s" % mod)
+    elif r.returncode not in (97,):
+        rec.set_inconclusive("no test of %s passed or no C entry point was reached (exit %s)" % (mod, r.returncode))
+    rec.set_sample({"module": mod, "passed": passed, "failed": failed[:10], "c_calls": ncalls, "entry_points": sorted(calls)[:60]})
 
 
 def _run_splineplan(case, rec, rng):
